@@ -25,6 +25,11 @@ theorem validate_calls_tie : validateCalls = 2 := by decide
     `valid_import_confined`), for the importer's default and for `WithLocalImporter` -/
 theorem extensions_sepfree : ∀ e ∈ defaultExtensions ++ configExtensions, 47 ∉ e := by decide
 
+/-- every extension the importers try starts with '.' (hypothesis `dottedExt` of
+    `accepted_names_resolve_injectively`, `same_file_same_module`, `import_runs_once_per_file`:
+    together with `accepted_names_dotfree` it makes `name ++ ext` split in one way only) -/
+theorem extensions_dotted : ∀ e ∈ defaultExtensions ++ configExtensions, dottedExt e = true := by decide
+
 /-- and they are the lists the correspondence harness runs the model with -/
 theorem extensions_tie :
     defaultExtensions = [[46, 114, 105, 115, 111, 114], [46, 114, 115, 114]] ∧
